@@ -270,6 +270,15 @@ enum websocket_callback_return binary_frame_received_comp(bool is_compressed, st
 	}
 }
 
+/*
+ * Size of the buffer websocket_compress() needs for a message of the given
+ * length. Short messages grow when they are deflated and flushed.
+ */
+size_t websocket_compress_bound(size_t length)
+{
+	return (length > 32) ? (length * 2) : (length + 32);
+}
+
 int websocket_compress(const struct websocket *s, uint8_t *dest, uint8_t *src, size_t length)
 {
 	if (s->extension_compression.compression_level == 0) {
@@ -279,10 +288,15 @@ int websocket_compress(const struct websocket *s, uint8_t *dest, uint8_t *src, s
 	int ret;
 	z_stream *strm = *(s->extension_compression.strm_comp);
 	unsigned int have;
+	static uint8_t empty_message;
+
+	if (length == 0) {
+		src = &empty_message;
+	}
 
 	strm->avail_in = length;
 	strm->next_in = src;
-	strm->avail_out = length * 2;
+	strm->avail_out = websocket_compress_bound(length);
 	strm->next_out = dest;
 	if (s->extension_compression.server_no_context_takeover) {
 		ret = deflate(strm, Z_FULL_FLUSH);
@@ -295,8 +309,15 @@ int websocket_compress(const struct websocket *s, uint8_t *dest, uint8_t *src, s
 		deflateEnd(strm);
 		return -1;
 	}
-	have = length * 2 - strm->avail_out;
-	if (have < 4) log_err("Deflate not enough space!");
+	if ((strm->avail_out == 0) || (strm->avail_in != 0)) {
+		log_err("Deflate not enough space!");
+		return -1;
+	}
+	have = websocket_compress_bound(length) - strm->avail_out;
+	if (have < 4) {
+		log_err("Deflate not enough space!");
+		return -1;
+	}
 
 	if (dest[have - 1] != 0xff) log_err("Error remove tail deflate!");
 	if (dest[have - 2] != 0xff) log_err("Error remove tail deflate!");
